@@ -692,4 +692,11 @@ def r7_yaml_equivalence(ctx):
                     ctx.check(key_ok and src_ok and order_ok, f"{tp.qual}#rewrite", "each group's models are built from its own entry, in list order" if key_ok and src_ok and order_ok else f"group entry rewritten from another key or reordered: {norm(st)}", where=tp, node=st)
 
 
-RULES = [r1_order_table, r2_accessor_wiring, r3_group_loop, r4_model_loop, r5_call_shape, r6_who_may_call, r7_yaml_equivalence]
+def r8_arguments_not_shared_between_copies(ctx):
+    """"Exactly the arguments configured for it": a model's arguments must not be reachable from another run's copy - the copy hooks on the path Processor -> pipeline -> ModelGroup -> ModelFunction -> Arguments are the reviewed deep copies only (shared with C06.R3)."""
+    from props.C06 import r3_deepcopy_completeness
+
+    r3_deepcopy_completeness(ctx)
+
+
+RULES = [r8_arguments_not_shared_between_copies, r1_order_table, r2_accessor_wiring, r3_group_loop, r4_model_loop, r5_call_shape, r6_who_may_call, r7_yaml_equivalence]
